@@ -68,6 +68,22 @@ theorem stepEnable_some {s s' : St} {m : Nat} {v : Bool} (h : stepEnable s m v =
   · rename_i hg; cases h; exact ⟨hg.1, hg.2, rfl⟩
   · cases h
 
+theorem stepSetGlob_some {s s' : St} {g : Glob} {i : Nat} (h : stepSetGlob s g i = some s') :
+    s.pc = .idle ∧ ∃ f, s' = { s with gfn := f } := by
+  unfold stepSetGlob at h
+  split at h
+  · cases h
+  · rename_i hpc; simp at hpc
+    refine ⟨hpc, ?_⟩
+    cases g <;> simp only at h <;> (try split at h) <;> cases h <;> exact ⟨_, rfl⟩
+
+theorem stepGlob_some {s s' : St} {g : Glob} {i : Nat} {ok : Bool} (h : stepGlob s g i ok = some s') :
+    s.pc = .glob g ∧ s.gfn g = some i ∧ s' = globNext s g ok := by
+  unfold stepGlob at h
+  split at h
+  · rename_i hg; cases h; exact ⟨hg.1, hg.2, rfl⟩
+  · cases h
+
 @[simp] theorem set_same {α : Type} (f : Nat → α) (i : Nat) (v : α) : set f i v i = v := by simp [set]
 theorem set_other {α : Type} (f : Nat → α) {i j : Nat} (v : α) (h : j ≠ i) : set f i v j = f j := by simp [set, h]
 
@@ -172,14 +188,26 @@ structure Inv1 (n : Nat) (deps : Nat → List Nat) (mgmt : Bool) (s : St) : Prop
   nodup : s.running.Nodup
   cnt : s.execCnt = s.reportCnt + s.running.length
   idle_run : passKind s.pc = none → s.running = []
-  prep_low : (s.pc = .prep ∨ s.locked = false) → ∀ m, s.status m ≤ statusOffline
-  stopX_shutdown : s.pc = .stopX → s.shutdown = true
-  pass_locked : (s.pc = .prep ∨ s.pc = .startS ∨ s.pc = .stopM ∨ s.pc = .startM) → s.locked = true
+  prep_low : s.pc = .prep → ∀ m, s.status m ≤ statusOffline
+  fresh : (s.locked = false ∨ s.pc = .glob .prep) → ∀ m, s.status m = statusDead
+  stopX_shutdown : (s.pc = .stopX ∨ s.pc = .glob .shutdown) → s.shutdown = true
+  pass_locked : (s.pc = .prep ∨ s.pc = .startS ∨ s.pc = .glob .prep ∨ s.pc = .glob .cmd ∨ ∃ ok, s.pc = .done .start ok) →
+    s.locked = true
   range : ∀ m, s.status m ≤ statusOnline
   out_dead : ∀ m, s.n ≤ m → s.status m = statusDead
 
 theorem inv1_init (n : Nat) (deps : Nat → List Nat) (mgmt : Bool) : Inv1 n deps mgmt (init n deps mgmt) := by
   constructor <;> simp [init, passKind]
+
+theorem passKind_glob (g : Glob) : passKind (.glob g) = none := rfl
+
+/-- Nothing is ready to be launched while every module is Dead, outside the prep pass. -/
+theorem not_ready_of_dead {s : St} {k : Kind} {m : Nat} (hd : ∀ x, s.status x = statusDead)
+    (hr : ready s k m = readyReady) : k = .prep := by
+  cases k
+  · rfl
+  · have := (readyToStart_ready.mp hr).2.1; simp [hd m] at this
+  · have := (readyToStop_ready.mp hr).2.1; simp [hd m] at this
 
 theorem inv1_beg {n deps mgmt} {s s' : St} {k : Kind} {m : Nat} (hi : Inv1 n deps mgmt s)
     (h : stepBeg s k m = some s') : Inv1 n deps mgmt s' := by
@@ -215,25 +243,22 @@ theorem inv1_beg {n deps mgmt} {s s' : St} {k : Kind} {m : Nat} (hi : Inv1 n dep
   · simp; have := hi.cnt; omega
   · intro hp; simp [hk] at hp
   · intro hp x
+    simp at hp
     by_cases hxm : x = m
     · subst hxm
-      rcases hp with hp | hp
-      · simp at hp; rw [hp] at hk; simp [passKind] at hk; subst hk; simp [launchStatus]
-      · have hlow := hi.prep_low (Or.inr hp)
-        cases k
-        · simp [launchStatus]
-        · -- a start pass runs only once the registry is locked
-          exfalso
-          have : s.locked = true := hi.pass_locked (by
-            cases hpc : s.pc <;> simp [hpc, passKind] at hk ⊢)
-          simp [this] at hp
-        · -- nothing is online before Start: no module is ready to stop
-          exfalso
-          have := hlow x
-          have h5 := (readyToStop_ready.mp hr).2.1
-          simp at this h5
-          omega
-    · simp [set_other _ _ hxm]; exact hi.prep_low (by simpa using hp) x
+      rw [hp] at hk; simp [passKind] at hk; subst hk; simp [launchStatus]
+    · simp [set_other _ _ hxm]; exact hi.prep_low hp x
+  · -- before Start (and while the global prep function is due) nothing can be launched
+    intro hp; exfalso
+    simp at hp
+    rcases hp with hp | hp
+    · have hd := hi.fresh (Or.inl hp)
+      have hkp := not_ready_of_dead hd hr
+      subst hkp
+      have : s.locked = true := hi.pass_locked (by
+        cases hpc : s.pc <;> simp [hpc, passKind] at hk ⊢)
+      simp [this] at hp
+    · simp [hp, passKind] at hk
   · exact hi.stopX_shutdown
   · exact hi.pass_locked
   · intro x
@@ -280,18 +305,20 @@ theorem inv1_fin {n deps mgmt} {s s' : St} {k : Kind} {m : Nat} {ok : Bool} (hi 
     omega
   · intro hp; simp [hk] at hp
   · intro hp x
+    simp at hp
     have hlow := hi.prep_low hp
     by_cases hxm : x = m
     · subst hxm
-      have hk2 : k ≠ .start := by
-        intro hks; subst hks
-        rcases hp with hp | hp
-        · simp at hp; simp [hp, passKind] at hk
-        · have : s.locked = true := hi.pass_locked (by
-            cases hpc : s.pc <;> simp [hpc, passKind] at hk ⊢)
-          simp [this] at hp
-      cases k <;> cases ok <;> simp [finStatus, launchStatus] at hst hk2 ⊢ <;> omega
+      rw [hp] at hk; simp [passKind] at hk; subst hk
+      cases ok <;> simp [finStatus, launchStatus] at hst ⊢ <;> omega
     · simp [set_other _ _ hxm]; exact hlow x
+  · intro hp; exfalso
+    simp at hp
+    rcases hp with hp | hp
+    · have := hi.fresh (Or.inl hp) m
+      rw [hst] at this
+      exact launchStatus_ne_zero k (by simpa using this)
+    · simp [hp, passKind] at hk
   · exact hi.stopX_shutdown
   · exact hi.pass_locked
   · intro x
@@ -318,7 +345,8 @@ theorem inv1_ret {n deps mgmt} {s s' : St} {a : Api} {ok : Bool} (hi : Inv1 n de
   · exact hi.nodup
   · exact hi.cnt
   · intro _; exact hrun
-  · intro hp; simp at hp; exact hi.prep_low (Or.inr hp)
+  · intro hp; simp at hp
+  · intro hp; simp at hp; exact hi.fresh (Or.inl hp)
   · intro hp; simp at hp
   · intro hp; simp at hp
   · exact hi.range
@@ -328,7 +356,13 @@ theorem inv1_enable {n deps mgmt} {s s' : St} {m : Nat} {v : Bool} (hi : Inv1 n 
     (h : stepEnable s m v = some s') : Inv1 n deps mgmt s' := by
   obtain ⟨_, _, rfl⟩ := stepEnable_some h
   exact ⟨hi.hn, hi.hdeps, hi.hmgmt, hi.run_lt, hi.run_status, hi.starting_run, hi.stopping_run, hi.nodup, hi.cnt,
-    hi.idle_run, hi.prep_low, hi.stopX_shutdown, hi.pass_locked, hi.range, hi.out_dead⟩
+    hi.idle_run, hi.prep_low, hi.fresh, hi.stopX_shutdown, hi.pass_locked, hi.range, hi.out_dead⟩
+
+theorem inv1_setGlob {n deps mgmt} {s s' : St} {g : Glob} {i : Nat} (hi : Inv1 n deps mgmt s)
+    (h : stepSetGlob s g i = some s') : Inv1 n deps mgmt s' := by
+  obtain ⟨_, f, rfl⟩ := stepSetGlob_some h
+  exact ⟨hi.hn, hi.hdeps, hi.hmgmt, hi.run_lt, hi.run_status, hi.starting_run, hi.stopping_run, hi.nodup, hi.cnt,
+    hi.idle_run, hi.prep_low, hi.fresh, hi.stopX_shutdown, hi.pass_locked, hi.range, hi.out_dead⟩
 
 /-- Entering a pass or finishing a call: only the manager's position, the counters, the error flags, the
     dependency marks and the lock flags change, and nothing is in flight. -/
@@ -336,9 +370,11 @@ theorem inv1_move {n deps mgmt} {s s' : St} (hi : Inv1 n deps mgmt s)
     (hrun : s.running = [])
     (h1 : s'.n = s.n) (h2 : s'.deps = s.deps) (h3 : s'.mgmt = s.mgmt) (h4 : s'.status = s.status)
     (h5 : s'.running = s.running) (h6 : s'.execCnt = s'.reportCnt)
-    (hlow : (s'.pc = .prep ∨ s'.locked = false) → (s.pc = .prep ∨ s.locked = false))
-    (hsx : s'.pc = .stopX → s'.shutdown = true)
-    (hlk : (s'.pc = .prep ∨ s'.pc = .startS ∨ s'.pc = .stopM ∨ s'.pc = .startM) → s'.locked = true) :
+    (hlow : s'.pc = .prep → (s.pc = .prep ∨ s.locked = false ∨ s.pc = .glob .prep))
+    (hfresh : (s'.locked = false ∨ s'.pc = .glob .prep) → (s.locked = false ∨ s.pc = .glob .prep))
+    (hsx : (s'.pc = .stopX ∨ s'.pc = .glob .shutdown) → s'.shutdown = true)
+    (hlk : (s'.pc = .prep ∨ s'.pc = .startS ∨ s'.pc = .glob .prep ∨ s'.pc = .glob .cmd ∨ ∃ ok, s'.pc = .done .start ok) →
+      s'.locked = true) :
     Inv1 n deps mgmt s' := by
   constructor
   · rw [h1]; exact hi.hn
@@ -351,7 +387,12 @@ theorem inv1_move {n deps mgmt} {s s' : St} (hi : Inv1 n deps mgmt s)
   · rw [h5, hrun]; simp
   · rw [h5, hrun, h6]; simp
   · intro _; rw [h5]; exact hrun
-  · intro hp; rw [h4]; exact hi.prep_low (hlow hp)
+  · intro hp x; rw [h4]
+    rcases hlow hp with hq | hq | hq
+    · exact hi.prep_low hq x
+    · rw [hi.fresh (Or.inl hq) x]; simp
+    · rw [hi.fresh (Or.inr hq) x]; simp
+  · intro hp; rw [h4]; exact hi.fresh (hfresh hp)
   · exact hsx
   · exact hlk
   · rw [h4]; exact hi.range
@@ -359,7 +400,6 @@ theorem inv1_move {n deps mgmt} {s s' : St} (hi : Inv1 n deps mgmt s)
 
 theorem inv1_call {n deps mgmt} {s s' : St} {a : Api} (hi : Inv1 n deps mgmt s)
     (h : stepCall s a = some s') : Inv1 n deps mgmt s' := by
-  have hrun : s.running = [] → True := fun _ => trivial
   cases a with
   | start =>
     simp only [stepCall] at h
@@ -367,17 +407,20 @@ theorem inv1_call {n deps mgmt} {s s' : St} {a : Api} (hi : Inv1 n deps mgmt s)
     rename_i hpc; simp at hpc
     have hrun : s.running = [] := hi.idle_run (by simp [hpc, passKind])
     have hcnt := hi.cnt; simp [hrun] at hcnt
-    split at h; · cases h
     split at h
-    · cases h; exact inv1_move hi hrun rfl rfl rfl rfl rfl hcnt (by simp; exact Or.inr) (by simp) (by simp)
+    · rename_i hlk
+      cases h
+      exact inv1_move hi hrun rfl rfl rfl rfl rfl hcnt (by simp) (by simp [hlk]) (by simp) (by simp [hlk])
     · rename_i hlk; simp at hlk
       split at h
       · cases h
-        refine inv1_move hi hrun rfl rfl rfl rfl rfl hcnt ?_ (by simp) (by simp)
-        simp
-      · cases h
-        refine inv1_move hi hrun rfl rfl rfl rfl rfl rfl ?_ (by simp [enterPass]) (by simp [enterPass])
-        intro _; exact Or.inr hlk
+        exact inv1_move hi hrun rfl rfl rfl rfl rfl hcnt (by simp) (by simp) (by simp) (by simp)
+      · split at h
+        · cases h
+          exact inv1_move hi hrun rfl rfl rfl rfl rfl hcnt (by simp) (by simp [hlk]) (by simp) (by simp)
+        · cases h
+          exact inv1_move hi hrun rfl rfl rfl rfl rfl rfl (by simp [enterPass, hlk]) (by simp [enterPass]) (by simp [enterPass])
+            (by simp [enterPass])
   | manage =>
     simp only [stepCall] at h
     split at h; · cases h
@@ -385,13 +428,15 @@ theorem inv1_call {n deps mgmt} {s s' : St} {a : Api} (hi : Inv1 n deps mgmt s)
     have hrun : s.running = [] := hi.idle_run (by simp [hpc, passKind])
     have hcnt := hi.cnt; simp [hrun] at hcnt
     split at h
-    · cases h; exact inv1_move hi hrun rfl rfl rfl rfl rfl hcnt (by simp [hpc]) (by simp) (by simp)
-    · split at h; · cases h
-      rename_i hlk; simp at hlk
-      split at h; · cases h
-      cases h
-      refine inv1_move hi hrun rfl rfl rfl rfl rfl rfl ?_ (by simp [enterPass]) (by simp [enterPass, buildEnabledTree, hlk])
-      simp [enterPass, buildEnabledTree, hlk]
+    · cases h; exact inv1_move hi hrun rfl rfl rfl rfl rfl hcnt (by simp) (by simp [hpc]) (by simp) (by simp)
+    · split at h
+      · cases h
+        exact inv1_move hi hrun rfl rfl rfl rfl rfl rfl (by simp [enterPass]) (by simp [enterPass, hpc]) (by simp [enterPass])
+          (by simp [enterPass])
+      · split at h; · cases h
+        cases h
+        exact inv1_move hi hrun rfl rfl rfl rfl rfl rfl (by simp [enterPass, buildEnabledTree]) (by simp [enterPass, buildEnabledTree, hpc])
+          (by simp [enterPass, buildEnabledTree]) (by simp [enterPass, buildEnabledTree])
   | shutdown =>
     simp only [stepCall] at h
     split at h; · cases h
@@ -399,10 +444,35 @@ theorem inv1_call {n deps mgmt} {s s' : St} {a : Api} (hi : Inv1 n deps mgmt s)
     have hrun : s.running = [] := hi.idle_run (by simp [hpc, passKind])
     have hcnt := hi.cnt; simp [hrun] at hcnt
     split at h
-    · cases h; exact inv1_move hi hrun rfl rfl rfl rfl rfl hcnt (by simp [hpc]) (by simp) (by simp)
-    · cases h
-      refine inv1_move hi hrun rfl rfl rfl rfl rfl rfl ?_ (by simp [enterPass]) (by simp [enterPass])
-      simp [enterPass]; exact Or.inr
+    · cases h; exact inv1_move hi hrun rfl rfl rfl rfl rfl hcnt (by simp) (by simp [hpc]) (by simp) (by simp)
+    · split at h
+      · cases h
+        exact inv1_move hi hrun rfl rfl rfl rfl rfl hcnt (by simp) (by simp [hpc]) (by simp) (by simp)
+      · cases h
+        exact inv1_move hi hrun rfl rfl rfl rfl rfl rfl (by simp [enterPass]) (by simp [enterPass, hpc]) (by simp [enterPass])
+          (by simp [enterPass])
+
+theorem inv1_glob {n deps mgmt} {s s' : St} {g : Glob} {i : Nat} {ok : Bool} (hi : Inv1 n deps mgmt s)
+    (h : stepGlob s g i ok = some s') : Inv1 n deps mgmt s' := by
+  obtain ⟨hpc, _, rfl⟩ := stepGlob_some h
+  have hrun : s.running = [] := hi.idle_run (by simp [hpc, passKind])
+  have hcnt := hi.cnt; simp [hrun] at hcnt
+  cases g with
+  | prep =>
+    have hlk : s.locked = true := hi.pass_locked (Or.inr (Or.inr (Or.inl hpc)))
+    cases ok
+    · exact inv1_move hi hrun rfl rfl rfl rfl rfl hcnt (by simp [globNext]) (by simp [globNext, hlk]) (by simp [globNext])
+        (by simp [globNext, hlk])
+    · exact inv1_move hi hrun rfl rfl rfl rfl rfl rfl (by simp [globNext, enterPass, hpc]) (by simp [globNext, enterPass, hlk])
+        (by simp [globNext, enterPass]) (by simp [globNext, enterPass, hlk])
+  | shutdown =>
+    have hsd : s.shutdown = true := hi.stopX_shutdown (Or.inr hpc)
+    exact inv1_move hi hrun rfl rfl rfl rfl rfl rfl (by simp [globNext, enterPass]) (by simp [globNext, enterPass, hpc])
+      (by simp [globNext, enterPass, hsd]) (by simp [globNext, enterPass])
+  | cmd =>
+    have hlk : s.locked = true := hi.pass_locked (Or.inr (Or.inr (Or.inr (Or.inl hpc))))
+    exact inv1_move hi hrun rfl rfl rfl rfl rfl hcnt (by simp [globNext]) (by simp [globNext, hlk]) (by simp [globNext])
+      (by simp [globNext, hlk])
 
 theorem passEnd_running {n deps mgmt} {s s' : St} (hi : Inv1 n deps mgmt s) (h : stepPassEnd s = some s') :
     s.running = [] ∧ s.execCnt = s.reportCnt := by
@@ -413,23 +483,45 @@ theorem passEnd_running {n deps mgmt} {s s' : St} (hi : Inv1 n deps mgmt s) (h :
   have hl : s.running.length = 0 := by omega
   exact ⟨List.eq_nil_of_length_eq_zero hl, by omega⟩
 
+theorem stepPassEnd_frame2 {s s' : St} (h : stepPassEnd s = some s') :
+    s'.pc ≠ .glob .prep ∧ s'.pc ≠ .stopX ∧ s'.pc ≠ .glob .shutdown ∧
+    ((s'.pc = .glob .cmd ∨ s'.pc = .startS ∨ ∃ ok, s'.pc = .done .start ok) → (s.pc = .prep ∨ s.pc = .startS)) ∧
+    (s'.execCnt = s'.reportCnt ∨ (s'.execCnt = s.execCnt ∧ s'.reportCnt = s.reportCnt)) ∧
+    s'.status = s.status ∧ s'.running = s.running ∧ s'.n = s.n ∧ s'.deps = s.deps ∧ s'.mgmt = s.mgmt ∧
+    s'.locked = s.locked ∧ s'.shutdown = s.shutdown ∧ s'.pc ≠ .prep := by
+  unfold stepPassEnd at h
+  split at h; · cases h
+  cases hpc : s.pc <;> simp only [hpc] at h <;> (repeat' split at h) <;>
+    first
+      | (cases h; done)
+      | (cases h; simp_all [enterPass, buildEnabledTree])
+
 theorem inv1_passEnd {n deps mgmt} {s s' : St} (hi : Inv1 n deps mgmt s)
     (h : stepPassEnd s = some s') : Inv1 n deps mgmt s' := by
   obtain ⟨hrun, hcnt⟩ := passEnd_running hi h
-  have hlk : (s.pc = .prep ∨ s.pc = .stopM) → s.locked = true := by
+  obtain ⟨g1, g2, g3, g4, g5, g6, g7, g8, g9, g10, g11, g12, g13⟩ := stepPassEnd_frame2 h
+  have hlk : (s.pc = .prep ∨ s.pc = .startS) → s.locked = true := by
     intro hp; rcases hp with hp | hp
     · exact hi.pass_locked (Or.inl hp)
-    · exact hi.pass_locked (Or.inr (Or.inr (Or.inl hp)))
-  unfold stepPassEnd at h
-  split at h; · cases h
-  split at h <;> (try rename_i hpc) <;> repeat' split at h
-  all_goals first
-    | (cases h; done)
-    | (cases h; exact inv1_move hi hrun rfl rfl rfl rfl rfl hcnt (by simp; exact Or.inr) (by simp) (by simp))
-    | (cases h; exact inv1_move hi hrun rfl rfl rfl rfl rfl rfl (by simp [enterPass, buildEnabledTree]; exact Or.inr)
-               (by simp [enterPass]) (by simp [enterPass, buildEnabledTree]; exact hlk (Or.inl hpc)))
-    | (cases h; exact inv1_move hi hrun rfl rfl rfl rfl rfl rfl (by simp [enterPass, buildEnabledTree]; exact Or.inr)
-               (by simp [enterPass]) (by simp [enterPass, buildEnabledTree]; exact hlk (Or.inr hpc)))
+    · exact hi.pass_locked (Or.inr (Or.inl hp))
+  refine inv1_move hi hrun g8 g9 g10 g6 g7 ?_ (fun hp => absurd hp g13) ?_ ?_ ?_
+  · rcases g5 with g5 | ⟨g5, g5'⟩
+    · exact g5
+    · rw [g5, g5']; exact hcnt
+  · intro hp; rw [g11] at hp
+    rcases hp with hp | hp
+    · exact Or.inl hp
+    · exact absurd hp g1
+  · intro hp; rcases hp with hp | hp
+    · exact absurd hp g2
+    · exact absurd hp g3
+  · intro hp; rw [g11]
+    rcases hp with hp | hp | hp | hp | hp
+    · exact absurd hp g13
+    · exact hlk (g4 (Or.inr (Or.inl hp)))
+    · exact absurd hp g1
+    · exact hlk (g4 (Or.inl hp))
+    · exact hlk (g4 (Or.inr (Or.inr hp)))
 
 theorem inv1_step {n deps mgmt} {s s' : St} {e : Ev} (hi : Inv1 n deps mgmt s)
     (h : step s e = some s') : Inv1 n deps mgmt s' := by
@@ -441,6 +533,8 @@ theorem inv1_step {n deps mgmt} {s s' : St} {e : Ev} (hi : Inv1 n deps mgmt s)
   | passEnd => exact inv1_passEnd hi h
   | enable m => exact inv1_enable hi h
   | disable m => exact inv1_enable hi h
+  | setGlob g i => exact inv1_setGlob hi h
+  | glob g i ok => exact inv1_glob hi h
 
 theorem inv1_of_runs {n deps mgmt} {tr : List Ev} {s : St} (h : Runs (init n deps mgmt) tr s) :
     Inv1 n deps mgmt s := by
@@ -452,8 +546,18 @@ theorem inv1_of_runs {n deps mgmt} {tr : List Ev} {s : St} (h : Runs (init n dep
 
 theorem stepCall_frame {s s' : St} {a : Api} (h : stepCall s a = some s') :
     s'.status = s.status ∧ s'.enabled = s.enabled ∧ s'.running = s.running ∧ s'.n = s.n ∧ s'.deps = s.deps ∧
-    s'.mgmt = s.mgmt ∧ s.pc = .idle ∧ (s'.pc = .prep → s.locked = false) ∧ (s.locked = true → s'.locked = true) := by
+    s'.mgmt = s.mgmt ∧ s.pc = .idle ∧ ((s'.pc = .prep ∨ s'.pc = .glob .prep) → s.locked = false) ∧
+    (s.locked = true → s'.locked = true) ∧ (s'.locked = false → s.locked = false) ∧ s'.pc ≠ .glob .cmd := by
   cases a <;> simp only [stepCall] at h <;> (repeat' split at h) <;>
+    first
+      | (cases h; done)
+      | (cases h; simp_all [enterPass, buildEnabledTree])
+
+/-- The command-line operation is due only at the end of the prep pass. -/
+theorem stepPassEnd_cmd {s s' : St} (h : stepPassEnd s = some s') (hp : s'.pc = .glob .cmd) : s.pc = .prep := by
+  unfold stepPassEnd at h
+  split at h; · cases h
+  cases hpc : s.pc <;> simp only [hpc] at h <;> (repeat' split at h) <;>
     first
       | (cases h; done)
       | (cases h; simp_all [enterPass, buildEnabledTree])
@@ -524,41 +628,43 @@ structure Inv2 (tr : List Ev) (s : St) : Prop where
   prep0 : ∀ m, prepBegun tr m = 0 ↔ s.status m = statusDead
   prep1 : ∀ m, prepBegun tr m ≤ 1
   prepok : ∀ m, statusOffline ≤ s.status m → prepOk tr m
-  nostart : startBegun tr → s.locked = true ∧ s.pc ≠ .prep
+  nostart : startBegun tr → s.locked = true ∧ s.pc ≠ .prep ∧ s.pc ≠ .glob .prep ∧ s.pc ≠ .glob .cmd
   popen : ∀ m, prepBegun tr m = prepEnded tr m + (if s.pc = .prep ∧ m ∈ s.running then 1 else 0)
   cnt : ∀ m, startsOk tr m = stopsBegun tr m + (if s.status m = statusOnline then 1 else 0)
   en : ∀ m, s.enabled m = enabledOf tr m
   en_lt : ∀ m, s.enabled m = true → m < s.n
   bal : begun tr = ended tr + s.running.length
+  fresh0 : (s.locked = false ∨ s.pc = .glob .prep) → begun tr = 0
 
 theorem inv2_init (n : Nat) (deps : Nat → List Nat) (mgmt : Bool) : Inv2 [] (init n deps mgmt) := by
   constructor <;> simp [init, lifeOf, lifeCode, prepBegun, prepEnded, prepOk, startBegun, startsOk, stopsBegun, enabledOf, begun, ended]
 
-/-- `call`, `ret`, `passEnd`: no callback event, no status change, nothing in flight. -/
+/-- `call`, `ret`, `passEnd`, `setGlob`, `glob`: no callback event, no status change, nothing in flight. -/
 theorem inv2_quiet {tr : List Ev} {s s' : St} {e : Ev} (hi : Inv2 tr s)
-    (he : (∃ a, e = .call a) ∨ (∃ a ok, e = .ret a ok) ∨ e = .passEnd)
+    (he : (∃ a, e = .call a) ∨ (∃ a ok, e = .ret a ok) ∨ e = .passEnd ∨ (∃ g i, e = .setGlob g i) ∨ (∃ g i ok, e = .glob g i ok))
     (h4 : s'.status = s.status) (h5 : s'.enabled = s.enabled) (h0 : s'.n = s.n) (hr : s.running = []) (hr' : s'.running = [])
-    (hns : startBegun tr → s'.locked = true ∧ s'.pc ≠ .prep) : Inv2 (tr ++ [e]) s' := by
+    (hns : startBegun tr → s'.locked = true ∧ s'.pc ≠ .prep ∧ s'.pc ≠ .glob .prep ∧ s'.pc ≠ .glob .cmd)
+    (hfr : (s'.locked = false ∨ s'.pc = .glob .prep) → (s.locked = false ∨ s.pc = .glob .prep)) : Inv2 (tr ++ [e]) s' := by
   have hl : lifeOf (tr ++ [e]) = lifeOf tr := by
-    rw [lifeOf_snoc]; rcases he with ⟨a, rfl⟩ | ⟨a, ok, rfl⟩ | rfl <;> rfl
+    rw [lifeOf_snoc]; rcases he with ⟨a, rfl⟩ | ⟨a, ok, rfl⟩ | rfl | ⟨g, i, rfl⟩ | ⟨g, i, ok, rfl⟩ <;> rfl
   have hen : enabledOf (tr ++ [e]) = enabledOf tr := by
-    rw [enabledOf_snoc]; rcases he with ⟨a, rfl⟩ | ⟨a, ok, rfl⟩ | rfl <;> rfl
+    rw [enabledOf_snoc]; rcases he with ⟨a, rfl⟩ | ⟨a, ok, rfl⟩ | rfl | ⟨g, i, rfl⟩ | ⟨g, i, ok, rfl⟩ <;> rfl
   have h1 : ∀ m, prepBegun (tr ++ [e]) m = prepBegun tr m := by
-    intro m; rw [prepBegun_snoc]; rcases he with ⟨a, rfl⟩ | ⟨a, ok, rfl⟩ | rfl <;> simp
+    intro m; rw [prepBegun_snoc]; rcases he with ⟨a, rfl⟩ | ⟨a, ok, rfl⟩ | rfl | ⟨g, i, rfl⟩ | ⟨g, i, ok, rfl⟩ <;> simp
   have h2 : ∀ m, prepEnded (tr ++ [e]) m = prepEnded tr m := by
-    intro m; rw [prepEnded_snoc]; rcases he with ⟨a, rfl⟩ | ⟨a, ok, rfl⟩ | rfl <;> simp
+    intro m; rw [prepEnded_snoc]; rcases he with ⟨a, rfl⟩ | ⟨a, ok, rfl⟩ | rfl | ⟨g, i, rfl⟩ | ⟨g, i, ok, rfl⟩ <;> simp
   have h3 : ∀ m, startsOk (tr ++ [e]) m = startsOk tr m := by
-    intro m; rw [startsOk_snoc]; rcases he with ⟨a, rfl⟩ | ⟨a, ok, rfl⟩ | rfl <;> simp
+    intro m; rw [startsOk_snoc]; rcases he with ⟨a, rfl⟩ | ⟨a, ok, rfl⟩ | rfl | ⟨g, i, rfl⟩ | ⟨g, i, ok, rfl⟩ <;> simp
   have h6 : ∀ m, stopsBegun (tr ++ [e]) m = stopsBegun tr m := by
-    intro m; rw [stopsBegun_snoc]; rcases he with ⟨a, rfl⟩ | ⟨a, ok, rfl⟩ | rfl <;> simp
+    intro m; rw [stopsBegun_snoc]; rcases he with ⟨a, rfl⟩ | ⟨a, ok, rfl⟩ | rfl | ⟨g, i, rfl⟩ | ⟨g, i, ok, rfl⟩ <;> simp
   have h7 : begun (tr ++ [e]) = begun tr := by
-    rw [begun_snoc]; rcases he with ⟨a, rfl⟩ | ⟨a, ok, rfl⟩ | rfl <;> simp
+    rw [begun_snoc]; rcases he with ⟨a, rfl⟩ | ⟨a, ok, rfl⟩ | rfl | ⟨g, i, rfl⟩ | ⟨g, i, ok, rfl⟩ <;> simp
   have h8 : ended (tr ++ [e]) = ended tr := by
-    rw [ended_snoc]; rcases he with ⟨a, rfl⟩ | ⟨a, ok, rfl⟩ | rfl <;> simp
+    rw [ended_snoc]; rcases he with ⟨a, rfl⟩ | ⟨a, ok, rfl⟩ | rfl | ⟨g, i, rfl⟩ | ⟨g, i, ok, rfl⟩ <;> simp
   have h9 : ∀ m, prepOk (tr ++ [e]) m ↔ prepOk tr m := by
-    intro m; rw [prepOk_snoc]; rcases he with ⟨a, rfl⟩ | ⟨a, ok, rfl⟩ | rfl <;> simp
+    intro m; rw [prepOk_snoc]; rcases he with ⟨a, rfl⟩ | ⟨a, ok, rfl⟩ | rfl | ⟨g, i, rfl⟩ | ⟨g, i, ok, rfl⟩ <;> simp
   have h10 : startBegun (tr ++ [e]) ↔ startBegun tr := by
-    rw [startBegun_snoc]; rcases he with ⟨a, rfl⟩ | ⟨a, ok, rfl⟩ | rfl <;> simp
+    rw [startBegun_snoc]; rcases he with ⟨a, rfl⟩ | ⟨a, ok, rfl⟩ | rfl | ⟨g, i, rfl⟩ | ⟨g, i, ok, rfl⟩ <;> simp
   constructor
   · intro m; rw [hl, h4]; exact hi.life m
   · intro m; rw [h1, h4]; exact hi.prep0 m
@@ -570,6 +676,7 @@ theorem inv2_quiet {tr : List Ev} {s s' : St} {e : Ev} (hi : Inv2 tr s)
   · intro m; rw [hen, h5]; exact hi.en m
   · intro m; rw [h5, h0]; exact hi.en_lt m
   · rw [h7, h8, hr']; have := hi.bal; simp [hr] at this; simp [this]
+  · intro hp; rw [h7]; exact hi.fresh0 (hfr hp)
 
 theorem lifeCode_launch (k : Kind) : lifeCode (launchStatus k) = match k with | .prep => 0 | .start => 1 | .stop => 3 := by
   cases k <;> simp [lifeCode, launchStatus]
@@ -627,8 +734,13 @@ theorem inv2_beg {n deps mgmt} {tr : List Ev} {s s' : St} {k : Kind} {m : Nat} (
     rcases hs with hs | ⟨x, hx⟩
     · exact hi.nostart hs
     · cases hx
-      refine ⟨h1.pass_locked ?_, ?_⟩
-      · cases hp : s.pc <;> simp [hp, passKind] at hk ⊢
+      refine ⟨?_, ?_, ?_, ?_⟩
+      · -- before Start nothing is ready to start
+        cases hl : s.locked
+        · have := not_ready_of_dead (h1.fresh (Or.inl hl)) hr; cases this
+        · rfl
+      · simp; intro hp; simp [hp, passKind] at hk
+      · simp; intro hp; simp [hp, passKind] at hk
       · simp; intro hp; simp [hp, passKind] at hk
   · intro x
     rw [prepBegun_snoc, prepEnded_snoc]
@@ -649,6 +761,16 @@ theorem inv2_beg {n deps mgmt} {tr : List Ev} {s s' : St} {k : Kind} {m : Nat} (
   · intro x; rw [enabledOf_snoc]; exact hi.en x
   · exact hi.en_lt
   · rw [begun_snoc, ended_snoc]; have := hi.bal; simp; omega
+  · -- nothing can be launched before Start / while the global prep function is due
+    intro hp; exfalso
+    simp at hp
+    rcases hp with hp | hp
+    · have hkp := not_ready_of_dead (h1.fresh (Or.inl hp)) hr
+      subst hkp
+      have : s.locked = true := h1.pass_locked (by
+        cases hpc' : s.pc <;> simp [hpc', passKind] at hk ⊢)
+      simp [this] at hp
+    · simp [hp, passKind] at hk
 
 theorem inv2_fin {n deps mgmt} {tr : List Ev} {s s' : St} {k : Kind} {m : Nat} {ok : Bool} (h1 : Inv1 n deps mgmt s)
     (hi : Inv2 tr s) (h : stepFin s k m ok = some s') : Inv2 (tr ++ [.fin k m ok]) s' := by
@@ -713,6 +835,13 @@ theorem inv2_fin {n deps mgmt} {tr : List Ev} {s s' : St} {k : Kind} {m : Nat} {
     have hl := List.length_erase_of_mem hmem
     have : 0 < s.running.length := List.length_pos_of_mem hmem
     simp [hl]; omega
+  · intro hp; exfalso
+    simp at hp
+    rcases hp with hp | hp
+    · have := h1.fresh (Or.inl hp) m
+      rw [hst] at this
+      exact launchStatus_ne_zero k (by simpa using this)
+    · simp [hp, passKind] at hk
 
 theorem inv2_enable {tr : List Ev} {s s' : St} {m : Nat} {v : Bool} (hi : Inv2 tr s)
     (h : stepEnable s m v = some s') :
@@ -740,32 +869,78 @@ theorem inv2_enable {tr : List Ev} {s s' : St} {m : Nat} {v : Bool} (hi : Inv2 t
     · subst hxm; exact hm
     · simp [set_other _ _ hxm] at hx; exact hi.en_lt x hx
   · rw [begun_snoc, ended_snoc]; have := hi.bal; cases v <;> simp <;> exact this
+  · intro hp; rw [begun_snoc]; have := hi.fresh0 hp; cases v <;> simp <;> exact this
 
 theorem inv2_step {n deps mgmt} {tr : List Ev} {s s' : St} {e : Ev} (h1 : Inv1 n deps mgmt s) (hi : Inv2 tr s)
     (h : step s e = some s') : Inv2 (tr ++ [e]) s' := by
   cases e with
   | call a =>
-    obtain ⟨f1, f2, f3, f4, _, _, f7, f8, f9⟩ := stepCall_frame h
+    obtain ⟨f1, f2, f3, f4, _, _, f7, f8, f9, f10, f11⟩ := stepCall_frame h
     have hr : s.running = [] := h1.idle_run (by simp [f7, passKind])
-    refine inv2_quiet hi (Or.inl ⟨a, rfl⟩) f1 f2 f4 hr (by rw [f3]; exact hr) ?_
-    intro hs
-    have := hi.nostart hs
-    refine ⟨f9 this.1, ?_⟩
-    intro hp; have := f8 hp; simp_all
+    refine inv2_quiet hi (Or.inl ⟨a, rfl⟩) f1 f2 f4 hr (by rw [f3]; exact hr) ?_ ?_
+    · intro hs
+      have := hi.nostart hs
+      refine ⟨f9 this.1, ?_, ?_, f11⟩
+      · intro hp; have := f8 (Or.inl hp); simp_all
+      · intro hp; have := f8 (Or.inr hp); simp_all
+    · intro hp
+      rcases hp with hp | hp
+      · exact Or.inl (f10 hp)
+      · exact Or.inl (f8 (Or.inr hp))
   | ret a ok =>
     obtain ⟨hpc, rfl⟩ := stepRet_some h
     have hr : s.running = [] := h1.idle_run (by simp [hpc, passKind])
-    refine inv2_quiet hi (Or.inr (Or.inl ⟨a, ok, rfl⟩)) rfl rfl rfl hr hr ?_
-    intro hs; exact ⟨(hi.nostart hs).1, by simp⟩
+    refine inv2_quiet hi (Or.inr (Or.inl ⟨a, ok, rfl⟩)) rfl rfl rfl hr hr ?_ ?_
+    · intro hs; exact ⟨(hi.nostart hs).1, by simp, by simp, by simp⟩
+    · intro hp; simp at hp; exact Or.inl hp
   | beg k m => exact inv2_beg h1 hi h
   | fin k m ok => exact inv2_fin h1 hi h
   | passEnd =>
     obtain ⟨hr, _⟩ := passEnd_running h1 h
-    obtain ⟨f1, f2, f3, f4, _, _, f7, f8, _⟩ := stepPassEnd_frame h
-    refine inv2_quiet hi (Or.inr (Or.inr rfl)) f1 f2 f4 hr (by rw [f3]; exact hr) ?_
-    intro hs; exact ⟨by rw [f8]; exact (hi.nostart hs).1, f7⟩
+    obtain ⟨g1, g2, g3, g4, g5, g6, g7, g8, g9, g10, g11, g12, g13⟩ := stepPassEnd_frame2 h
+    obtain ⟨_, f2, _⟩ := stepPassEnd_frame h
+    refine inv2_quiet hi (Or.inr (Or.inr (Or.inl rfl))) g6 f2 g8 hr (by rw [g7]; exact hr) ?_ ?_
+    · intro hs
+      have hn := hi.nostart hs
+      refine ⟨by rw [g11]; exact hn.1, g13, g1, ?_⟩
+      intro hp
+      rcases g4 (Or.inl hp) with hq | hq
+      · exact hn.2.1 hq
+      · -- from the start pass of Start the command-line operation is never reached
+        have := stepPassEnd_cmd h hp
+        exact hn.2.1 this
+    · intro hp; rw [g11] at hp
+      rcases hp with hp | hp
+      · exact Or.inl hp
+      · exact absurd hp g1
   | enable m => exact inv2_enable (v := true) hi h
   | disable m => exact inv2_enable (v := false) hi h
+  | setGlob g i =>
+    obtain ⟨hpc, f, rfl⟩ := stepSetGlob_some h
+    have hr : s.running = [] := h1.idle_run (by simp [hpc, passKind])
+    refine inv2_quiet hi (Or.inr (Or.inr (Or.inr (Or.inl ⟨g, i, rfl⟩)))) rfl rfl rfl hr hr ?_ ?_
+    · intro hs; have := hi.nostart hs; exact ⟨this.1, by simp [hpc], by simp [hpc], by simp [hpc]⟩
+    · intro hp; exact hp
+  | glob g i ok =>
+    obtain ⟨hpc, _, rfl⟩ := stepGlob_some h
+    have hr : s.running = [] := h1.idle_run (by simp [hpc, passKind])
+    refine inv2_quiet hi (Or.inr (Or.inr (Or.inr (Or.inr ⟨g, i, ok, rfl⟩)))) ?_ ?_ ?_ hr ?_ ?_ ?_
+    · cases g <;> cases ok <;> simp [globNext, enterPass]
+    · cases g <;> cases ok <;> simp [globNext, enterPass]
+    · cases g <;> cases ok <;> simp [globNext, enterPass]
+    · cases g <;> cases ok <;> simp [globNext, enterPass, hr]
+    · intro hs
+      have hn := hi.nostart hs
+      cases g
+      · exact absurd hpc hn.2.2.1
+      · cases ok <;> simp [globNext, enterPass, hn.1]
+      · exact absurd hpc hn.2.2.2
+    · intro hp
+      have hlk : s.pc = .glob .prep ∨ s.locked = false := by
+        cases g <;> cases ok <;> simp [globNext, enterPass] at hp <;> simp_all
+      rcases hlk with hq | hq
+      · exact Or.inr hq
+      · exact Or.inl hq
 
 theorem inv2_of_runs {n deps mgmt} {tr : List Ev} {s : St} (h : Runs (init n deps mgmt) tr s) : Inv2 tr s := by
   induction h with
@@ -899,23 +1074,45 @@ theorem keep_closed {s : St} (hs : AsDepSpec s) :
   · obtain ⟨e, he, hee, ht⟩ := (hs r).mp had
     exact ⟨e, he, hee, transDep_tail ht hd⟩
 
-structure Inv3 (s : St) : Prop where
+/-! ### Histories in which Shutdown is final -/
+
+theorem shutdownFinal_prefix {tr : List Ev} {e : Ev} (h : ShutdownFinal (tr ++ [e])) : ShutdownFinal tr := by
+  intro t1 t2 ht
+  have := h t1 (t2 ++ [e]) (by rw [ht]; simp)
+  exact ⟨fun hm => this.1 (List.mem_append_left _ hm), fun hm => this.2 (List.mem_append_left _ hm)⟩
+
+theorem shutdownFinal_call {tr : List Ev} {a : Api} (h : ShutdownFinal (tr ++ [.call a])) (ha : a ≠ .shutdown) :
+    Ev.call .shutdown ∉ tr := by
+  intro hm
+  obtain ⟨t1, t2, ht⟩ := List.append_of_mem hm
+  have := h t1 (t2 ++ [.call a]) (by rw [ht]; simp)
+  cases a
+  · exact this.1 (by simp)
+  · exact this.2 (by simp)
+  · exact ha rfl
+
+structure Inv3 (tr : List Ev) (s : St) : Prop where
   asdep : (s.pc = .startS ∨ s.pc = .stopM ∨ s.pc = .startM ∨ s.pc = .done .start true ∨
-            (s.pc = .done .manage true ∧ s.mgmt = true)) → AsDepSpec s
+            (s.pc = .done .manage true ∧ s.mgmt = true)) → s.locked = true → AsDepSpec s
+  asdep0 : (s.pc = .stopM ∨ s.pc = .startM ∨ (s.pc = .done .manage true ∧ s.mgmt = true)) → s.locked = false →
+            ∀ m, s.asDep m = false
   up : (s.pc = .startS ∨ s.pc = .startM) → ∀ m, statusOffline < s.status m → wanted s m = true
   okS : (s.pc = .done .start true ∨ (s.pc = .done .manage true ∧ s.mgmt = true)) →
           ∀ m, m < s.n → (s.status m = statusOnline ↔ wanted s m = true)
-  down : s.shutdown = true → s.pc ≠ .stopX → ∀ m, s.status m ≠ statusOnline
-  sd_pc : s.shutdown = true → passKind s.pc = none ∨ s.pc = .stopX
+  down : ShutdownFinal tr → s.shutdown = true →
+          ((∀ m, s.status m ≠ statusOnline) ∧ (s.pc = .idle ∨ ∃ ok, s.pc = .done .shutdown ok)) ∨
+          s.pc = .stopX ∨ s.pc = .glob .shutdown
+  sd_called : s.shutdown = true → Ev.call .shutdown ∈ tr
 
-theorem inv3_init (n : Nat) (deps : Nat → List Nat) (mgmt : Bool) : Inv3 (init n deps mgmt) := by
+theorem inv3_init (n : Nat) (deps : Nat → List Nat) (mgmt : Bool) : Inv3 [] (init n deps mgmt) := by
   constructor <;> simp [init, passKind]
 
-theorem inv3_beg {n deps mgmt} {s s' : St} {k : Kind} {m : Nat} (h1 : Inv1 n deps mgmt s) (hi : Inv3 s)
-    (h : stepBeg s k m = some s') : Inv3 s' := by
+theorem inv3_beg {n deps mgmt} {tr : List Ev} {s s' : St} {k : Kind} {m : Nat} (h1 : Inv1 n deps mgmt s) (hi : Inv3 tr s)
+    (h : stepBeg s k m = some s') : Inv3 (tr ++ [.beg k m]) s' := by
   obtain ⟨hm, hk, hr, rfl⟩ := stepBeg_some h
   constructor
   · intro hp; exact hi.asdep hp
+  · intro hp; exact hi.asdep0 hp
   · intro hp x hx
     by_cases hxm : x = m
     · subst hxm
@@ -926,18 +1123,20 @@ theorem inv3_beg {n deps mgmt} {s s' : St} {k : Kind} {m : Nat} (h1 : Inv1 n dep
     · simp [set_other _ _ hxm] at hx; exact hi.up hp x (by simpa using hx)
   · intro hp; exfalso
     rcases hp with hp | ⟨hp, _⟩ <;> simp at hp <;> simp [hp, passKind] at hk
-  · intro hsd hne x
-    exfalso
-    rcases hi.sd_pc hsd with hp | hp
-    · simp [hp] at hk
-    · exact hne hp
-  · exact hi.sd_pc
+  · intro hdom hsd
+    rcases hi.down (shutdownFinal_prefix hdom) hsd with ⟨_, hp | ⟨ok, hp⟩⟩ | hp | hp
+    · simp [hp, passKind] at hk
+    · simp [hp, passKind] at hk
+    · exact Or.inr (Or.inl hp)
+    · simp [hp, passKind] at hk
+  · intro hsd; exact List.mem_append_left _ (hi.sd_called hsd)
 
-theorem inv3_fin {n deps mgmt} {s s' : St} {k : Kind} {m : Nat} {ok : Bool} (h1 : Inv1 n deps mgmt s) (hi : Inv3 s)
-    (h : stepFin s k m ok = some s') : Inv3 s' := by
+theorem inv3_fin {n deps mgmt} {tr : List Ev} {s s' : St} {k : Kind} {m : Nat} {ok : Bool} (h1 : Inv1 n deps mgmt s)
+    (hi : Inv3 tr s) (h : stepFin s k m ok = some s') : Inv3 (tr ++ [.fin k m ok]) s' := by
   obtain ⟨hk, hmem, hst, rfl⟩ := stepFin_some h
   constructor
   · intro hp; exact hi.asdep hp
+  · intro hp; exact hi.asdep0 hp
   · intro hp x hx
     by_cases hxm : x = m
     · subst hxm
@@ -948,50 +1147,96 @@ theorem inv3_fin {n deps mgmt} {s s' : St} {k : Kind} {m : Nat} {ok : Bool} (h1 
     · simp [set_other _ _ hxm] at hx; exact hi.up hp x (by simpa using hx)
   · intro hp; exfalso
     rcases hp with hp | ⟨hp, _⟩ <;> simp at hp <;> simp [hp, passKind] at hk
-  · intro hsd hne x
-    exfalso
-    rcases hi.sd_pc hsd with hp | hp
-    · simp [hp] at hk
-    · exact hne hp
-  · exact hi.sd_pc
+  · intro hdom hsd
+    rcases hi.down (shutdownFinal_prefix hdom) hsd with ⟨_, hp | ⟨ok', hp⟩⟩ | hp | hp
+    · simp [hp, passKind] at hk
+    · simp [hp, passKind] at hk
+    · exact Or.inr (Or.inl hp)
+    · simp [hp, passKind] at hk
+  · intro hsd; exact List.mem_append_left _ (hi.sd_called hsd)
 
-theorem inv3_ret {s s' : St} {a : Api} {ok : Bool} (hi : Inv3 s)
-    (h : stepRet s a ok = some s') : Inv3 s' := by
+theorem inv3_ret {tr : List Ev} {s s' : St} {a : Api} {ok : Bool} (hi : Inv3 tr s)
+    (h : stepRet s a ok = some s') : Inv3 (tr ++ [.ret a ok]) s' := by
   obtain ⟨hpc, rfl⟩ := stepRet_some h
   constructor
   · intro hp; simp at hp
   · intro hp; simp at hp
   · intro hp; simp at hp
-  · intro hsd _; exact hi.down hsd (by simp [hpc])
-  · intro _; left; simp [passKind]
+  · intro hp; simp at hp
+  · intro hdom hsd
+    rcases hi.down (shutdownFinal_prefix hdom) hsd with ⟨hoff, _⟩ | hp | hp
+    · exact Or.inl ⟨hoff, Or.inl rfl⟩
+    · simp [hpc] at hp
+    · simp [hpc] at hp
+  · intro hsd; exact List.mem_append_left _ (hi.sd_called hsd)
 
-theorem inv3_enable {s s' : St} {m : Nat} {v : Bool} (hi : Inv3 s)
-    (h : stepEnable s m v = some s') : Inv3 s' := by
+theorem inv3_enable {tr : List Ev} {s s' : St} {m : Nat} {v : Bool} (hi : Inv3 tr s)
+    (h : stepEnable s m v = some s') : Inv3 (tr ++ [if v then .enable m else .disable m]) s' := by
   obtain ⟨hpc, _, rfl⟩ := stepEnable_some h
   constructor
   · intro hp; simp [hpc] at hp
   · intro hp; simp [hpc] at hp
   · intro hp; simp [hpc] at hp
-  · intro hsd hne; exact hi.down hsd hne
-  · exact hi.sd_pc
+  · intro hp; simp [hpc] at hp
+  · intro hdom hsd
+    rcases hi.down (shutdownFinal_prefix hdom) hsd with ⟨hoff, hp⟩ | hp | hp
+    · exact Or.inl ⟨hoff, hp⟩
+    · simp [hpc] at hp
+    · simp [hpc] at hp
+  · intro hsd; exact List.mem_append_left _ (hi.sd_called hsd)
 
-theorem inv3_call {n deps mgmt} {s s' : St} {a : Api} (h1 : Inv1 n deps mgmt s) (hi : Inv3 s)
+theorem inv3_setGlob {tr : List Ev} {s s' : St} {g : Glob} {i : Nat} (hi : Inv3 tr s)
+    (h : stepSetGlob s g i = some s') : Inv3 (tr ++ [.setGlob g i]) s' := by
+  obtain ⟨hpc, f, rfl⟩ := stepSetGlob_some h
+  constructor
+  · intro hp; simp [hpc] at hp
+  · intro hp; simp [hpc] at hp
+  · intro hp; simp [hpc] at hp
+  · intro hp; simp [hpc] at hp
+  · intro hdom hsd
+    rcases hi.down (shutdownFinal_prefix hdom) hsd with ⟨hoff, hp⟩ | hp | hp
+    · exact Or.inl ⟨hoff, hp⟩
+    · simp [hpc] at hp
+    · simp [hpc] at hp
+  · intro hsd; exact List.mem_append_left _ (hi.sd_called hsd)
+
+theorem inv3_glob {n deps mgmt} {tr : List Ev} {s s' : St} {g : Glob} {i : Nat} {ok : Bool} (h1 : Inv1 n deps mgmt s)
+    (hi : Inv3 tr s) (h : stepGlob s g i ok = some s') : Inv3 (tr ++ [.glob g i ok]) s' := by
+  obtain ⟨hpc, _, rfl⟩ := stepGlob_some h
+  have hsdsame : (globNext s g ok).shutdown = s.shutdown := by cases g <;> cases ok <;> simp [globNext, enterPass]
+  constructor
+  · intro hp; exfalso; cases g <;> cases ok <;> simp [globNext, enterPass] at hp
+  · intro hp; exfalso; cases g <;> cases ok <;> simp [globNext, enterPass] at hp
+  · intro hp; exfalso; cases g <;> cases ok <;> simp [globNext, enterPass] at hp
+  · intro hp; exfalso; cases g <;> cases ok <;> simp [globNext, enterPass] at hp
+  · intro hdom hsd
+    rw [hsdsame] at hsd
+    rcases hi.down (shutdownFinal_prefix hdom) hsd with ⟨_, hp | ⟨ok', hp⟩⟩ | hp | hp
+    · simp [hpc] at hp
+    · simp [hpc] at hp
+    · simp [hpc] at hp
+    · rw [hpc] at hp; cases hp
+      right; left; cases ok <;> simp [globNext, enterPass]
+  · intro hsd; rw [hsdsame] at hsd; exact List.mem_append_left _ (hi.sd_called hsd)
+
+theorem inv3_call {n deps mgmt} {tr : List Ev} {s s' : St} {a : Api} (h1 : Inv1 n deps mgmt s) (hi : Inv3 tr s)
     (hreg : ∀ m, m < n → ∀ d ∈ deps m, d < n)
-    (h : stepCall s a = some s') : Inv3 s' := by
+    (h : stepCall s a = some s') : Inv3 (tr ++ [.call a]) s' := by
   have hreg' : ∀ m, m < s.n → ∀ d ∈ s.deps m, d < s.n := by rw [h1.hn, h1.hdeps]; exact hreg
+  -- Start / ManageModules: inside the property's histories the shutdown flag is not set
+  have hnosd : ∀ x : St, a ≠ .shutdown → x.shutdown = s.shutdown → ShutdownFinal (tr ++ [.call a]) → x.shutdown = true → False := by
+    intro x ha hx hdom hxs
+    rw [hx] at hxs
+    exact shutdownFinal_call hdom ha (hi.sd_called hxs)
   cases a with
   | start =>
     simp only [stepCall] at h
     split at h; · cases h
     rename_i hpc; simp at hpc
-    split at h; · cases h
-    rename_i hsd
-    have hdown : ∀ x : St, x.shutdown = s.shutdown → (x.shutdown = true → x.pc ≠ .stopX → ∀ m, x.status m ≠ statusOnline) := by
-      intro x hx hxs; rw [hx] at hxs; exact absurd hxs hsd
-    have hsdpc : ∀ x : St, x.shutdown = s.shutdown → (x.shutdown = true → passKind x.pc = none ∨ x.pc = .stopX) := by
-      intro x hx hxs; rw [hx] at hxs; exact absurd hxs hsd
     (repeat' split at h) <;> cases h <;>
-      exact ⟨by simp [enterPass], by simp [enterPass], by simp [enterPass], hdown _ rfl, hsdpc _ rfl⟩
+      exact ⟨by simp [enterPass], by simp [enterPass], by simp [enterPass], by simp [enterPass],
+             fun hdom hsd => (hnosd _ (by simp) rfl hdom hsd).elim,
+             fun hsd => List.mem_append_left _ (hi.sd_called hsd)⟩
   | manage =>
     simp only [stepCall] at h
     split at h; · cases h
@@ -999,17 +1244,23 @@ theorem inv3_call {n deps mgmt} {s s' : St} {a : Api} (h1 : Inv1 n deps mgmt s) 
     split at h
     · rename_i hmg; simp at hmg
       cases h
-      exact ⟨by simp [hmg], by simp, by simp [hmg], fun hsd _ => hi.down hsd (by simp [hpc]), fun _ => Or.inl (by simp [passKind])⟩
-    · split at h; · cases h
-      split at h; · cases h
-      rename_i hsd
-      cases h
-      refine ⟨?_, by simp [enterPass], by simp [enterPass], ?_, ?_⟩
-      · intro _
-        have := buildEnabledTree_spec (s := s) hreg'
-        exact this
-      · intro hx; simp [enterPass, buildEnabledTree] at hx; exact absurd hx hsd
-      · intro hx; simp [enterPass, buildEnabledTree] at hx; exact absurd hx hsd
+      exact ⟨by simp [hmg], by simp [hmg], by simp, by simp [hmg],
+             fun hdom hsd => (hnosd _ (by simp) rfl hdom hsd).elim,
+             fun hsd => List.mem_append_left _ (hi.sd_called hsd)⟩
+    · split at h
+      · rename_i hlk; simp at hlk
+        cases h
+        exact ⟨by simp [enterPass, hlk], by simp [enterPass], by simp [enterPass], by simp [enterPass],
+               fun hdom hsd => (hnosd _ (by simp) rfl hdom hsd).elim,
+               fun hsd => List.mem_append_left _ (hi.sd_called hsd)⟩
+      · rename_i hlk; simp at hlk
+        split at h; · cases h
+        cases h
+        refine ⟨?_, by simp [enterPass, buildEnabledTree, hlk], by simp [enterPass], by simp [enterPass],
+               fun hdom hsd => (hnosd _ (by simp) rfl hdom hsd).elim,
+               fun hsd => List.mem_append_left _ (hi.sd_called hsd)⟩
+        intro _ _
+        exact buildEnabledTree_spec (s := s) hreg'
   | shutdown =>
     simp only [stepCall] at h
     split at h; · cases h
@@ -1017,11 +1268,20 @@ theorem inv3_call {n deps mgmt} {s s' : St} {a : Api} (h1 : Inv1 n deps mgmt s) 
     split at h
     · rename_i hsd
       cases h
-      exact ⟨by simp, by simp, by simp, fun _ _ => hi.down hsd (by simp [hpc]), fun _ => Or.inl (by simp [passKind])⟩
-    · cases h
-      exact ⟨by simp [enterPass], by simp [enterPass], by simp [enterPass], by simp [enterPass], fun _ => Or.inr (by simp [enterPass])⟩
+      refine ⟨by simp, by simp, by simp, by simp, ?_, fun _ => by simp⟩
+      intro hdom _
+      rcases hi.down (shutdownFinal_prefix hdom) hsd with ⟨hoff, _⟩ | hp | hp
+      · exact Or.inl ⟨hoff, Or.inr ⟨false, rfl⟩⟩
+      · simp [hpc] at hp
+      · simp [hpc] at hp
+    · split at h
+      · cases h
+        exact ⟨by simp, by simp, by simp, by simp, fun _ _ => Or.inr (Or.inr rfl), fun _ => by simp⟩
+      · cases h
+        exact ⟨by simp [enterPass], by simp [enterPass], by simp [enterPass], by simp [enterPass],
+               fun _ _ => Or.inr (Or.inl (by simp [enterPass])), fun _ => by simp⟩
 
-theorem start_pass_done {n deps mgmt} {s : St} (h1 : Inv1 n deps mgmt s) (hi : Inv3 s)
+theorem start_pass_done {n deps mgmt} {tr : List Ev} {s : St} (h1 : Inv1 n deps mgmt s) (hi : Inv3 tr s)
     (hp : s.pc = .startS ∨ s.pc = .startM)
     (hrun : s.running = []) (hnr : noneReady s .start = true) (hnw : anyWaiting s .start = false) :
     ∀ m, m < s.n → (s.status m = statusOnline ↔ wanted s m = true) := by
@@ -1030,121 +1290,139 @@ theorem start_pass_done {n deps mgmt} {s : St} (h1 : Inv1 n deps mgmt s) (hi : I
   · intro hon; exact hi.up hp m (by simp [hon])
   · exact start_fixpoint h1 hrun hnr hnw m hm
 
-theorem no_shutdown_in_pass {s : St} (hi : Inv3 s) {k : Kind} (hk : passKind s.pc = some k) (hne : s.pc ≠ .stopX) :
-    s.shutdown = false := by
-  cases hsd : s.shutdown
-  · rfl
-  · rcases hi.sd_pc hsd with hp | hp
-    · simp [hp] at hk
-    · exact absurd hp hne
-
-theorem inv3_passEnd {n deps mgmt} {s s' : St} (h1 : Inv1 n deps mgmt s) (hi : Inv3 s)
+theorem inv3_passEnd {n deps mgmt} {tr : List Ev} {s s' : St} (h1 : Inv1 n deps mgmt s) (hi : Inv3 tr s)
     (hreg : ∀ m, m < n → ∀ d ∈ deps m, d < n)
     (rank : Nat → Nat) (hrank : ∀ m, m < n → ∀ d ∈ deps m, rank d < rank m)
-    (h : stepPassEnd s = some s') : Inv3 s' := by
+    (h : stepPassEnd s = some s') : Inv3 (tr ++ [.passEnd]) s' := by
   have hreg' : ∀ m, m < s.n → ∀ d ∈ s.deps m, d < s.n := by rw [h1.hn, h1.hdeps]; exact hreg
   have hrank' : ∀ m, m < s.n → ∀ d ∈ s.deps m, rank d < rank m := by rw [h1.hn, h1.hdeps]; exact hrank
   obtain ⟨hrun, _⟩ := passEnd_running h1 h
+  obtain ⟨g1, g2, g3, g4, g5, g6, g7, g8, g9, g10, g11, g12, g13⟩ := stepPassEnd_frame2 h
+  have hcalled : s'.shutdown = true → Ev.call .shutdown ∈ tr ++ [.passEnd] := by
+    intro hsd; rw [g12] at hsd; exact List.mem_append_left _ (hi.sd_called hsd)
+  -- `down` for every pass but the stop pass of Shutdown: inside the property's histories the flag is not set there
+  have hdown_other : s.pc ≠ .stopX → ShutdownFinal (tr ++ [.passEnd]) → s'.shutdown = true →
+      ((∀ m, s'.status m ≠ statusOnline) ∧ (s'.pc = .idle ∨ ∃ ok, s'.pc = .done .shutdown ok)) ∨
+      s'.pc = .stopX ∨ s'.pc = .glob .shutdown := by
+    intro hne hdom hsd
+    rw [g12] at hsd
+    exfalso
+    rcases hi.down (shutdownFinal_prefix hdom) hsd with ⟨_, hp | ⟨ok, hp⟩⟩ | hp | hp
+    · simp [stepPassEnd, hp] at h
+    · simp [stepPassEnd, hp] at h
+    · exact hne hp
+    · simp [stepPassEnd, hp] at h
   unfold stepPassEnd at h
   split at h; · cases h
   cases hpc : s.pc with
   | idle => simp [hpc] at h
   | done a ok => simp [hpc] at h
+  | glob g => simp [hpc] at h
   | prep =>
-    have hsd : s.shutdown = false := no_shutdown_in_pass hi (k := .prep) (by simp [hpc, passKind]) (by simp [hpc])
+    have hd := hdown_other (by simp [hpc])
+    have hlk : s.locked = true := h1.pass_locked (Or.inl hpc)
     simp only [hpc] at h
     (repeat' split at h) <;> first
       | (cases h; done)
-      | (cases h; exact ⟨by simp, by simp, by simp, by simp [hsd], by simp [hsd]⟩)
+      | (cases h; exact ⟨by simp, by simp, by simp, by simp, hd, hcalled⟩)
       | (cases h
-         refine ⟨fun _ => buildEnabledTree_spec (s := s) hreg', ?_, by simp [enterPass], by simp [enterPass, buildEnabledTree, hsd],
-                 by simp [enterPass, buildEnabledTree, hsd]⟩
+         refine ⟨fun _ _ => buildEnabledTree_spec (s := s) hreg', by simp [enterPass, buildEnabledTree, hlk], ?_, by simp [enterPass],
+                 hd, hcalled⟩
          intro _ m hm
-         have := h1.prep_low (Or.inl hpc) m
+         have := h1.prep_low hpc m
          simp [enterPass, buildEnabledTree] at hm this
          omega)
   | startS =>
-    have hsd : s.shutdown = false := no_shutdown_in_pass hi (k := .start) (by simp [hpc, passKind]) (by simp [hpc])
+    have hd := hdown_other (by simp [hpc])
     simp only [hpc] at h
     split at h
-    · cases h; exact ⟨by simp, by simp, by simp, by simp [hsd], by simp [hsd]⟩
+    · cases h; exact ⟨by simp, by simp, by simp, by simp, hd, hcalled⟩
     · split at h; · cases h
       rename_i hnr; simp at hnr
       split at h
-      · cases h; exact ⟨by simp, by simp, by simp, by simp [hsd], by simp [hsd]⟩
+      · cases h; exact ⟨by simp, by simp, by simp, by simp, hd, hcalled⟩
       · rename_i hnw; simp at hnw
         cases h
-        refine ⟨fun _ => hi.asdep (Or.inl hpc), by simp, ?_, by simp [hsd], by simp [hsd]⟩
+        refine ⟨fun _ => hi.asdep (Or.inl hpc), by simp, by simp, ?_, hd, hcalled⟩
         intro _
         show ∀ m, m < s.n → (s.status m = statusOnline ↔ wanted s m = true)
         exact start_pass_done h1 hi (Or.inl hpc) hrun hnr hnw
   | stopM =>
-    have hsd : s.shutdown = false := no_shutdown_in_pass hi (k := .stop) (by simp [hpc, passKind]) (by simp [hpc])
+    have hd := hdown_other (by simp [hpc])
     simp only [hpc] at h
     split at h; · cases h
     rename_i hnr; simp at hnr
     cases h
-    have hspec := hi.asdep (Or.inr (Or.inl hpc))
-    refine ⟨fun _ => hspec, ?_, by simp [enterPass], by simp [enterPass, hsd], by simp [enterPass, hsd]⟩
+    refine ⟨fun _ => hi.asdep (Or.inr (Or.inl hpc)), fun _ => hi.asdep0 (Or.inl hpc), ?_, by simp [enterPass], hd, hcalled⟩
     intro _ m hm
     simp [enterPass] at hm
     show wanted s m = true
-    have hrange := h1.range m
-    have h3 : s.status m ≠ statusStopping := fun h => by have := h1.stopping_run m h; simp [hrun] at this
-    have h4 : s.status m ≠ statusStarting := fun h => by have := h1.starting_run m h; simp [hrun] at this
-    have h5 : s.status m = statusOnline := by simp at hm hrange h3 h4 ⊢; omega
-    have hmn : m < s.n := by
-      apply Classical.byContradiction; intro hge
-      have := h1.out_dead m (by omega); simp [this] at h5
-    have := stop_fixpoint h1 rank hrank' hrun hnr (keep_closed hspec) m hmn h5
-    simp [keep] at this
-    rcases this.2 with h | h <;> simp [wanted, h]
+    cases hlk : s.locked
+    · -- ManageModules before Start: every module is Dead
+      have := h1.fresh (Or.inl hlk) m
+      simp [this] at hm
+    · have hspec := hi.asdep (Or.inr (Or.inl hpc)) hlk
+      have hrange := h1.range m
+      have h3 : s.status m ≠ statusStopping := fun h => by have := h1.stopping_run m h; simp [hrun] at this
+      have h4 : s.status m ≠ statusStarting := fun h => by have := h1.starting_run m h; simp [hrun] at this
+      have h5 : s.status m = statusOnline := by simp at hm hrange h3 h4 ⊢; omega
+      have hmn : m < s.n := by
+        apply Classical.byContradiction; intro hge
+        have := h1.out_dead m (by omega); simp [this] at h5
+      have := stop_fixpoint h1 rank hrank' hrun hnr (keep_closed hspec) m hmn h5
+      simp [keep] at this
+      rcases this.2 with h | h <;> simp [wanted, h]
   | startM =>
-    have hsd : s.shutdown = false := no_shutdown_in_pass hi (k := .start) (by simp [hpc, passKind]) (by simp [hpc])
+    have hd := hdown_other (by simp [hpc])
     simp only [hpc] at h
     split at h
-    · cases h; exact ⟨by simp, by simp, by simp, by simp [hsd], by simp [hsd]⟩
+    · cases h; exact ⟨by simp, by simp, by simp, by simp, hd, hcalled⟩
     · split at h; · cases h
       rename_i hnr; simp at hnr
       split at h
-      · cases h; exact ⟨by simp, by simp, by simp, by simp [hsd], by simp [hsd]⟩
+      · cases h; exact ⟨by simp, by simp, by simp, by simp, hd, hcalled⟩
       · rename_i hnw; simp at hnw
         cases h
-        refine ⟨fun _ => hi.asdep (Or.inr (Or.inr (Or.inl hpc))), by simp, ?_, by simp [hsd], by simp [hsd]⟩
+        refine ⟨fun _ => hi.asdep (Or.inr (Or.inr (Or.inl hpc))), fun _ => hi.asdep0 (Or.inr (Or.inl hpc)), by simp, ?_, hd, hcalled⟩
         intro _
         show ∀ m, m < s.n → (s.status m = statusOnline ↔ wanted s m = true)
         exact start_pass_done h1 hi (Or.inr hpc) hrun hnr hnw
   | stopX =>
-    have hsd : s.shutdown = true := h1.stopX_shutdown hpc
+    have hsd : s.shutdown = true := h1.stopX_shutdown (Or.inl hpc)
     simp only [hpc] at h
     split at h; · cases h
     rename_i hnr; simp at hnr
     cases h
-    refine ⟨by simp, by simp, by simp, ?_, fun _ => Or.inl (by simp [passKind])⟩
-    intro _ _ m hon
+    refine ⟨by simp, by simp, by simp, by simp, ?_, hcalled⟩
+    intro _ _
+    left
+    refine ⟨?_, Or.inr ⟨_, rfl⟩⟩
+    intro m hon
     have hmn : m < s.n := by
       apply Classical.byContradiction; intro hge
       have := h1.out_dead m (by omega); simp [this] at hon
     have := stop_fixpoint h1 rank hrank' hrun hnr (by intro r _ hk; simp [keep, hsd] at hk) m hmn hon
     simp [keep, hsd] at this
 
-theorem inv3_step {n deps mgmt} {s s' : St} {e : Ev} (h1 : Inv1 n deps mgmt s) (hi : Inv3 s)
+theorem inv3_step {n deps mgmt} {tr : List Ev} {s s' : St} {e : Ev} (h1 : Inv1 n deps mgmt s) (hi : Inv3 tr s)
     (hreg : ∀ m, m < n → ∀ d ∈ deps m, d < n)
     (rank : Nat → Nat) (hrank : ∀ m, m < n → ∀ d ∈ deps m, rank d < rank m)
-    (h : step s e = some s') : Inv3 s' := by
+    (h : step s e = some s') : Inv3 (tr ++ [e]) s' := by
   cases e with
   | call a => exact inv3_call h1 hi hreg h
   | ret a ok => exact inv3_ret hi h
   | beg k m => exact inv3_beg h1 hi h
   | fin k m ok => exact inv3_fin h1 hi h
   | passEnd => exact inv3_passEnd h1 hi hreg rank hrank h
-  | enable m => exact inv3_enable hi h
-  | disable m => exact inv3_enable hi h
+  | enable m => exact inv3_enable (v := true) hi h
+  | disable m => exact inv3_enable (v := false) hi h
+  | setGlob g i => exact inv3_setGlob hi h
+  | glob g i ok => exact inv3_glob h1 hi h
 
 theorem inv3_of_runs {n deps mgmt} {tr : List Ev} {s : St}
     (hreg : ∀ m, m < n → ∀ d ∈ deps m, d < n)
     (rank : Nat → Nat) (hrank : ∀ m, m < n → ∀ d ∈ deps m, rank d < rank m)
-    (h : Runs (init n deps mgmt) tr s) : Inv3 s := by
+    (h : Runs (init n deps mgmt) tr s) : Inv3 tr s := by
   induction h with
   | nil => exact inv3_init n deps mgmt
   | snoc hr hs ih => exact inv3_step (inv1_of_runs hr) ih hreg rank hrank hs
@@ -1152,7 +1430,7 @@ theorem inv3_of_runs {n deps mgmt} {tr : List Ev} {s : St}
 /-! ### Shutdown is final; dependencies stay online while a module is started -/
 
 theorem step_shutdown_mono {s s' : St} {e : Ev} (h : step s e = some s') (hsd : s.shutdown = true) :
-    s'.shutdown = true ∧ (s'.pc = .stopX → s.pc = .stopX) := by
+    s'.shutdown = true ∧ ((s'.pc = .stopX ∨ s'.pc = .glob .shutdown) → (s.pc = .stopX ∨ s.pc = .glob .shutdown)) := by
   cases e with
   | call a =>
     cases a <;> simp only [step, stepCall] at h <;> (repeat' split at h) <;>
@@ -1163,40 +1441,74 @@ theorem step_shutdown_mono {s s' : St} {e : Ev} (h : step s e = some s') (hsd : 
   | beg k m => obtain ⟨_, _, _, rfl⟩ := stepBeg_some h; simp [hsd]
   | fin k m ok => obtain ⟨_, _, _, rfl⟩ := stepFin_some h; simp [hsd]
   | passEnd =>
-    obtain ⟨_, _, _, _, _, _, f7, _, f9⟩ := stepPassEnd_frame h
-    refine ⟨by rw [f9]; exact hsd, ?_⟩
+    obtain ⟨g1, g2, g3, g4, g5, g6, g7, g8, g9, g10, g11, g12, g13⟩ := stepPassEnd_frame2 h
+    refine ⟨by rw [g12]; exact hsd, ?_⟩
     intro hp
-    simp only [step] at h
-    unfold stepPassEnd at h
-    (repeat' split at h) <;> first
-      | (cases h; done)
-      | (cases h; simp [enterPass] at hp)
+    rcases hp with hp | hp
+    · exact absurd hp g2
+    · exact absurd hp g3
   | enable m => obtain ⟨_, _, rfl⟩ := stepEnable_some h; simp [hsd]
   | disable m => obtain ⟨_, _, rfl⟩ := stepEnable_some h; simp [hsd]
+  | setGlob g i => obtain ⟨_, f, rfl⟩ := stepSetGlob_some h; simp [hsd]
+  | glob g i ok =>
+    obtain ⟨hpc, _, rfl⟩ := stepGlob_some h
+    cases g <;> cases ok <;> simp [globNext, enterPass, hsd, hpc]
 
 structure Inv4 (tr : List Ev) (s : St) : Prop where
   done_sd : ∀ ok, s.pc = .done .shutdown ok → s.shutdown = true
-  after_sd : (∃ ok, Ev.ret .shutdown ok ∈ tr) → s.shutdown = true ∧ s.pc ≠ .stopX
+  after_sd : (∃ ok, Ev.ret .shutdown ok ∈ tr) → s.shutdown = true ∧ s.pc ≠ .stopX ∧ s.pc ≠ .glob .shutdown
   deps_on : ∀ m, m < s.n → statusOffline < s.status m → ∀ d ∈ s.deps m, s.status d = statusOnline
+  lock_called : s.locked = true → Ev.call .start ∈ tr
 
 theorem inv4_init (n : Nat) (deps : Nat → List Nat) (mgmt : Bool) : Inv4 [] (init n deps mgmt) := by
   constructor <;> simp [init]
 
 theorem inv4_step {n deps mgmt} {tr : List Ev} {s s' : St} {e : Ev} (h1 : Inv1 n deps mgmt s) (hi : Inv4 tr s)
     (h : step s e = some s') : Inv4 (tr ++ [e]) s' := by
-  have hafter : (∃ ok, Ev.ret .shutdown ok ∈ tr ++ [e]) → s'.shutdown = true ∧ s'.pc ≠ .stopX := by
+  have hafter : (∃ ok, Ev.ret .shutdown ok ∈ tr ++ [e]) → s'.shutdown = true ∧ s'.pc ≠ .stopX ∧ s'.pc ≠ .glob .shutdown := by
     rintro ⟨ok, hmem⟩
     rcases List.mem_append.mp hmem with hmem | hmem
-    · obtain ⟨hsd, hpc⟩ := hi.after_sd ⟨ok, hmem⟩
+    · obtain ⟨hsd, hpc, hpc'⟩ := hi.after_sd ⟨ok, hmem⟩
       obtain ⟨h1', h2'⟩ := step_shutdown_mono h hsd
-      exact ⟨h1', fun hp => hpc (h2' hp)⟩
+      refine ⟨h1', fun hp => ?_, fun hp => ?_⟩
+      · rcases h2' (Or.inl hp) with hq | hq
+        · exact hpc hq
+        · exact hpc' hq
+      · rcases h2' (Or.inr hp) with hq | hq
+        · exact hpc hq
+        · exact hpc' hq
     · simp at hmem; subst hmem
       obtain ⟨hpc, rfl⟩ := stepRet_some h
-      exact ⟨hi.done_sd ok hpc, by simp⟩
+      exact ⟨hi.done_sd ok hpc, by simp, by simp⟩
+  -- the lock is only ever set by Start
+  have hlock : s'.locked = true → Ev.call .start ∈ tr ++ [e] := by
+    intro hl
+    by_cases he : e = .call .start
+    · subst he; simp
+    · have : s.locked = true := by
+        cases e with
+        | call a =>
+          cases a
+          · exact absurd rfl he
+          · simp only [step, stepCall] at h
+            (repeat' split at h) <;> first | (cases h; done) | (cases h; simp_all [enterPass, buildEnabledTree])
+          · simp only [step, stepCall] at h
+            (repeat' split at h) <;> first | (cases h; done) | (cases h; simp_all [enterPass, buildEnabledTree])
+        | ret a ok => obtain ⟨_, rfl⟩ := stepRet_some h; exact hl
+        | beg k m => obtain ⟨_, _, _, rfl⟩ := stepBeg_some h; exact hl
+        | fin k m ok => obtain ⟨_, _, _, rfl⟩ := stepFin_some h; exact hl
+        | passEnd => obtain ⟨_, _, _, _, _, _, _, _, _, _, g11, _⟩ := stepPassEnd_frame2 h; rw [g11] at hl; exact hl
+        | enable m => obtain ⟨_, _, rfl⟩ := stepEnable_some h; exact hl
+        | disable m => obtain ⟨_, _, rfl⟩ := stepEnable_some h; exact hl
+        | setGlob g i => obtain ⟨_, f, rfl⟩ := stepSetGlob_some h; exact hl
+        | glob g i ok =>
+          obtain ⟨_, _, rfl⟩ := stepGlob_some h
+          cases g <;> cases ok <;> simpa [globNext, enterPass] using hl
+      exact List.mem_append_left _ (hi.lock_called this)
   cases e with
   | call a =>
     obtain ⟨f1, _, _, f4, f5, _, f7, _, _⟩ := stepCall_frame h
-    refine ⟨?_, hafter, by rw [f1, f4, f5]; exact hi.deps_on⟩
+    refine ⟨?_, hafter, by rw [f1, f4, f5]; exact hi.deps_on, hlock⟩
     intro ok hp
     cases a <;> simp only [step, stepCall] at h <;> (repeat' split at h) <;>
       first
@@ -1204,10 +1516,10 @@ theorem inv4_step {n deps mgmt} {tr : List Ev} {s s' : St} {e : Ev} (h1 : Inv1 n
         | (cases h; simp_all [enterPass, buildEnabledTree])
   | ret a ok =>
     obtain ⟨hpc, rfl⟩ := stepRet_some h
-    exact ⟨by simp, hafter, hi.deps_on⟩
+    exact ⟨by simp, hafter, hi.deps_on, hlock⟩
   | beg k m =>
     obtain ⟨hm, hk, hr, rfl⟩ := stepBeg_some h
-    refine ⟨?_, hafter, ?_⟩
+    refine ⟨?_, hafter, ?_, hlock⟩
     · intro ok hp; simp at hp; simp [hp, passKind] at hk
     · intro x hx hgt d hd
       simp at hx hgt hd ⊢
@@ -1247,7 +1559,7 @@ theorem inv4_step {n deps mgmt} {tr : List Ev} {s s' : St} {e : Ev} (h1 : Inv1 n
         · rw [set_other _ _ hdm]; exact hdon
   | fin k m ok =>
     obtain ⟨hk, hmem, hst, rfl⟩ := stepFin_some h
-    refine ⟨?_, hafter, ?_⟩
+    refine ⟨?_, hafter, ?_, hlock⟩
     · intro ok' hp; simp at hp; simp [hp, passKind] at hk
     · intro x hx hgt d hd
       simp at hx hgt hd ⊢
@@ -1265,10 +1577,10 @@ theorem inv4_step {n deps mgmt} {tr : List Ev} {s s' : St} {e : Ev} (h1 : Inv1 n
         · subst hdm; cases k <;> simp [hst, launchStatus] at hdon
         · rw [set_other _ _ hdm]; exact hdon
   | passEnd =>
-    obtain ⟨f1, _, _, f4, f5, _, _, _, f9⟩ := stepPassEnd_frame h
-    refine ⟨?_, hafter, by rw [f1, f4, f5]; exact hi.deps_on⟩
+    obtain ⟨g1, g2, g3, g4, g5, g6, g7, g8, g9, g10, g11, g12, g13⟩ := stepPassEnd_frame2 h
+    refine ⟨?_, hafter, by rw [g6, g8, g9]; exact hi.deps_on, hlock⟩
     intro ok hp
-    rw [f9]
+    rw [g12]
     simp only [step] at h
     unfold stepPassEnd at h
     split at h; · cases h
@@ -1276,18 +1588,90 @@ theorem inv4_step {n deps mgmt} {tr : List Ev} {s s' : St} {e : Ev} (h1 : Inv1 n
       first
         | (cases h; done)
         | (cases h; simp [enterPass] at hp; done)
-        | exact h1.stopX_shutdown hpc
+        | exact h1.stopX_shutdown (Or.inl hpc)
   | enable m =>
     obtain ⟨hpc, _, rfl⟩ := stepEnable_some h
-    exact ⟨by simp [hpc], hafter, hi.deps_on⟩
+    exact ⟨by simp [hpc], hafter, hi.deps_on, hlock⟩
   | disable m =>
     obtain ⟨hpc, _, rfl⟩ := stepEnable_some h
-    exact ⟨by simp [hpc], hafter, hi.deps_on⟩
+    exact ⟨by simp [hpc], hafter, hi.deps_on, hlock⟩
+  | setGlob g i =>
+    obtain ⟨hpc, f, rfl⟩ := stepSetGlob_some h
+    exact ⟨by simp [hpc], hafter, hi.deps_on, hlock⟩
+  | glob g i ok =>
+    obtain ⟨hpc, _, rfl⟩ := stepGlob_some h
+    refine ⟨?_, hafter, ?_, hlock⟩
+    · intro ok' hp; cases g <;> cases ok <;> simp [globNext, enterPass] at hp
+    · have e1 : (globNext s g ok).status = s.status := by cases g <;> cases ok <;> simp [globNext, enterPass]
+      have e2 : (globNext s g ok).n = s.n := by cases g <;> cases ok <;> simp [globNext, enterPass]
+      have e3 : (globNext s g ok).deps = s.deps := by cases g <;> cases ok <;> simp [globNext, enterPass]
+      rw [e1, e2, e3]; exact hi.deps_on
 
 theorem inv4_of_runs {n deps mgmt} {tr : List Ev} {s : St} (h : Runs (init n deps mgmt) tr s) : Inv4 tr s := by
   induction h with
   | nil => exact inv4_init n deps mgmt
   | snoc hr hs ih => exact inv4_step (inv1_of_runs hr) ih hs
+
+/-! ### A failed global prep function: nothing ever runs -/
+
+structure Inv5 (tr : List Ev) (s : St) : Prop where
+  gfail : (∃ i, Ev.glob .prep i false ∈ tr) →
+    (∀ m, s.status m = statusDead) ∧ s.locked = true ∧ s.pc ≠ .prep ∧ s.pc ≠ .glob .prep
+
+theorem inv5_init (n : Nat) (deps : Nat → List Nat) (mgmt : Bool) : Inv5 [] (init n deps mgmt) := by
+  constructor; simp
+
+/-- Once every module is Dead and the registry is locked with no prep pass to come, no routine can begin. -/
+theorem no_beg_of_dead {s : St} (hd : ∀ m, s.status m = statusDead) (hp : s.pc ≠ .prep) (k : Kind) (m : Nat) :
+    stepBeg s k m = none := by
+  cases hb : stepBeg s k m with
+  | none => rfl
+  | some s' =>
+    exfalso
+    obtain ⟨_, hk, hr, _⟩ := stepBeg_some hb
+    have := not_ready_of_dead hd hr
+    subst this
+    apply hp
+    cases hpc : s.pc <;> simp [hpc, passKind] at hk ⊢
+
+theorem inv5_step {n deps mgmt} {tr : List Ev} {s s' : St} {e : Ev} (h1 : Inv1 n deps mgmt s) (hi : Inv5 tr s)
+    (h : step s e = some s') : Inv5 (tr ++ [e]) s' := by
+  constructor
+  rintro ⟨i, hmem⟩
+  rcases List.mem_append.mp hmem with hmem | hmem
+  · obtain ⟨hd, hl, hp1, hp2⟩ := hi.gfail ⟨i, hmem⟩
+    cases e with
+    | call a =>
+      obtain ⟨f1, _, _, _, _, _, f7, f8, f9, _, _⟩ := stepCall_frame h
+      refine ⟨by rw [f1]; exact hd, f9 hl, ?_, ?_⟩
+      · intro hp; have := f8 (Or.inl hp); simp [hl] at this
+      · intro hp; have := f8 (Or.inr hp); simp [hl] at this
+    | ret a ok => obtain ⟨_, rfl⟩ := stepRet_some h; exact ⟨hd, hl, by simp, by simp⟩
+    | beg k m => simp only [step] at h; rw [no_beg_of_dead hd hp1] at h; cases h
+    | fin k m ok =>
+      obtain ⟨_, _, hst, _⟩ := stepFin_some h
+      rw [hd m] at hst
+      exact absurd hst.symm (by simpa using launchStatus_ne_zero k)
+    | passEnd =>
+      obtain ⟨g1, g2, g3, g4, g5, g6, g7, g8, g9, g10, g11, g12, g13⟩ := stepPassEnd_frame2 h
+      exact ⟨by rw [g6]; exact hd, by rw [g11]; exact hl, g13, g1⟩
+    | enable m => obtain ⟨hpc, _, rfl⟩ := stepEnable_some h; exact ⟨hd, hl, hp1, hp2⟩
+    | disable m => obtain ⟨hpc, _, rfl⟩ := stepEnable_some h; exact ⟨hd, hl, hp1, hp2⟩
+    | setGlob g j => obtain ⟨hpc, f, rfl⟩ := stepSetGlob_some h; exact ⟨hd, hl, hp1, hp2⟩
+    | glob g j ok =>
+      obtain ⟨hpc, _, rfl⟩ := stepGlob_some h
+      cases g
+      · exact absurd hpc hp2
+      · cases ok <;> simp [globNext, enterPass] <;> exact ⟨hd, hl⟩
+      · cases ok <;> simp [globNext, enterPass] <;> exact ⟨hd, hl⟩
+  · simp at hmem; subst hmem
+    obtain ⟨hpc, _, rfl⟩ := stepGlob_some h
+    exact ⟨h1.fresh (Or.inr hpc), h1.pass_locked (Or.inr (Or.inr (Or.inl hpc))), by simp [globNext], by simp [globNext]⟩
+
+theorem inv5_of_runs {n deps mgmt} {tr : List Ev} {s : St} (h : Runs (init n deps mgmt) tr s) : Inv5 tr s := by
+  induction h with
+  | nil => exact inv5_init n deps mgmt
+  | snoc hr hs ih => exact inv5_step (inv1_of_runs hr) ih hs
 
 /-! ### The model's `wanted` is the specification's `Wanted` -/
 
